@@ -132,10 +132,13 @@ class Statement(object):
                 ending_location = original_operand.find(original_operand[0], 1) if original_operand else -1
                 if ending_location < 1:
                     raise ParseError("string is not enclosed in a matching pair of delimiters", line)
-                self.operand = Operand.create_from_str(
-                    original_operand[0:ending_location + 1],
-                    self.instruction
-                )
+                try:
+                    self.operand = Operand.create_from_str(
+                        original_operand[0:ending_location + 1],
+                        self.instruction
+                    )
+                except (OperandTypeError, ValueTypeError) as error:
+                    raise ParseError(str(error), line)
                 self.original_operand = copy(self.operand)
                 self.comment = original_operand[ending_location + 1:].strip().lstrip(";").strip() or ""
                 self.is_empty = False
